@@ -244,26 +244,32 @@ def describe_switch(body, d):
         if dd[1].matches(r'^std::option::Option::<T>::(is_some|is_none)$|^std::result::Result::<T, E>::(is_ok|is_err)$') and dd[1].args:
             a0 = dd[1].args[0]
             base = direct_def(body, a0)
-            if base[0] == 'stmt' and base[1]['rv']['k'] == 'ref':
-                fs = [e[2] for e in base[1]['rv']['p'][1] if isinstance(e, list) and e[0] == 'F']
+            if base[0] == 'call':
+                if base[1].matches(r'as std::ops::Try>::branch$'):
+                    return ('try', '?')
+                return ('disc-call', base[1].path or base[1].decl)
+            if base[0] == 'ref':
+                # a reference to a local: what produced the local?
+                dl = direct_def(body, {'c': [base[1], []]})
+                if dl[0] == 'call':
+                    return ('disc-call', dl[1].path or dl[1].decl)
+                return ('disc', body.local_ty(base[1]))
+            if base[0] == 'place':
+                fs = [e[2] for e in base[1][1] if isinstance(e, list) and e[0] == 'F']
                 if fs and not fs[-1].isdigit():
-                    return ('disc-field', fs[-1]) if False else ('disc', body.local_ty(op_local(a0)) + ' .' + fs[-1])
+                    return ('disc-field', fs[-1])
             l0 = op_local(a0)
             if l0 is not None:
                 return ('disc', body.local_ty(l0))
         return ('call', dd[1].path or dd[1].decl)
-    if dd[0] == 'stmt' and dd[1]['rv']['k'] == 'un' and dd[1]['rv'].get('op') == 'Not':
+    if dd[0] == 'stmt' and dd[1]['rv']['k'] == 'un' and dd[1]['rv'].get('op') == 'Not' and op_local(dd[1]['rv']['a']) is not None:
         # `if !x.is_some()`: the same decision with the branches swapped
-        inner = dict(body.blocks[d])
-        l = op_local(dd[1]['rv']['a'])
-        if l is not None:
-            fake = {'term': {'k': 'switch', 'op': dd[1]['rv']['a']}}
-            saved = body.blocks[d]
-            body.blocks[d] = dict(saved, term=dict(saved['term'], op=dd[1]['rv']['a']))
-            try:
-                return describe_switch(body, d)
-            finally:
-                body.blocks[d] = saved
+        saved = body.blocks[d]
+        body.blocks[d] = dict(saved, term=dict(saved['term'], op=dd[1]['rv']['a']))
+        try:
+            return describe_switch(body, d)
+        finally:
+            body.blocks[d] = saved
     if dd[0] == 'stmt' and dd[1]['rv']['k'] == 'bin':
         return ('cmp', dd[1]['rv']['op'])
     return (dd[0], '')
@@ -316,13 +322,13 @@ MANDATORY = {
         ('group::rehash', r'::chain$', 0, 'chaining the passed-through groups', (), ()),
         ('group::rehash', r'::filter$', 0, 'the stage post-filter', (), ()),
         ('group::group_files', r'^group::scan_files$', 0, 'the directory scan', (), ()),
-        ('group::group_files', r'^group::group_by_size$', 0, 'grouping by size', (), (OPT_TRANSFORM,)),
-        ('group::group_files', r'^group::remove_same_files$', 0, 'removal of repeated paths', (), (OPT_TRANSFORM,)),
-        ('group::group_files', r'^group::deduplicate$', 0, 'removal of repeated paths (transform branch)', (), (OPT_TRANSFORM,)),
-        ('group::group_files', r'^group::group_by_prefix$', 0, 'the prefix stage', (), (OPT_TRANSFORM,)),
-        ('group::group_files', r'^group::group_by_suffix$', 0, 'the suffix stage', (), (OPT_TRANSFORM,)),
-        ('group::group_files', r'^group::group_by_contents$', 0, 'the contents stage', ('skip_content_hash',), (OPT_TRANSFORM,)),
-        ('group::group_files', r'^group::group_transformed$', 0, 'grouping of transformed files', (), (OPT_TRANSFORM,)),
+        ('group::group_files', r'^group::group_by_size$', 0, 'grouping by size', ('transform',), (OPT_TRANSFORM,)),
+        ('group::group_files', r'^group::remove_same_files$', 0, 'removal of repeated paths', ('transform',), (OPT_TRANSFORM,)),
+        ('group::group_files', r'^group::deduplicate$', 0, 'removal of repeated paths (transform branch)', ('transform',), (OPT_TRANSFORM,)),
+        ('group::group_files', r'^group::group_by_prefix$', 0, 'the prefix stage', ('transform',), (OPT_TRANSFORM,)),
+        ('group::group_files', r'^group::group_by_suffix$', 0, 'the suffix stage', ('transform',), (OPT_TRANSFORM,)),
+        ('group::group_files', r'^group::group_by_contents$', 0, 'the contents stage', ('skip_content_hash', 'transform'), (OPT_TRANSFORM,)),
+        ('group::group_files', r'^group::group_transformed$', 0, 'grouping of transformed files', ('transform',), (OPT_TRANSFORM,)),
     ],
     'C09': [
         ('group::scan_files', r"walk::Walk::<'a>::run$", 0, 'the directory walk', (), ()),
@@ -364,14 +370,14 @@ MANDATORY = {
     'C05': [
         ('dedupe::FsCommand::execute', r'FsCommand::safe_remove$', None, 'the safe replacement of the file by a link', (), (r'&dedupe::FsCommand$',)),
         ('dedupe::FsCommand::execute', r'reflink::reflink$', 0, 'the reflink replacement', (), (r'&dedupe::FsCommand$',)),
-        ('dedupe::FsCommand::execute', r'FsCommand::move_copy$', 0, 'the copy fall-back of move', (), (r'&dedupe::FsCommand$', r'Result.*::is_ok$')),
+        ('dedupe::FsCommand::execute', r'FsCommand::move_copy$', 0, 'the copy fall-back of move', (), (r'&dedupe::FsCommand$', r'Result.*::is_ok$', r'FsCommand::move_rename$')),
     ],
     'C07': [
         ('transform::Transform::run', r'Transform::make_args$', 0, 'building the argument vector', (), ()),
         ('transform::build_command', r'Input::prepare_input_file$', 0, 'preparing the private input copy before the program is started', (), ()),
     ],
     'C04': [
-        ('bin::run_dedupe', r'(^|::)dedupe::dedupe$|^fclones::dedupe$', 0, 'generating the script from the (validated) report', (), (r'Option.*::is_none$',)),
+        ('bin::run_dedupe', r'(^|::)dedupe::dedupe$|^fclones::dedupe$', 0, 'generating the script from the (validated) report', ('rf_over',), (r'Option.*::is_none$',)),
     ],
     'C15': [
         ("walk::Walk::<'a>::visit_dir", r"Walk::<'a>::log_warn$", 0, 'the warning for an unreadable directory', (), None),
